@@ -17,6 +17,31 @@ import (
 
 const Root = "/verif"
 
+func EvidenceDir() string {
+	if d := os.Getenv("VERIF_EVIDENCE_DIR"); d != "" {
+		return d
+	}
+	return filepath.Join(Root, "evidence")
+}
+
+func ReplayDir() string {
+	if d := os.Getenv("VERIF_REPLAY_DIR"); d != "" {
+		return d
+	}
+	return filepath.Join(Root, "replays")
+}
+
+// RepoRoot is the tree the harness was built against.
+func RepoRoot() string {
+	if d := os.Getenv("VERIF_REPO_ROOT"); d != "" {
+		return d
+	}
+	return "/repo"
+}
+
+// MlrBin is a plain (uninstrumented) mlr built from the same tree, when the driver built one.
+func MlrBin() string { return os.Getenv("VERIF_BIN_MLR") }
+
 type Violation struct {
 	Key    string `json:"key"`  // canonical, specific identification
 	What   string `json:"what"` // one line, human readable
@@ -193,7 +218,7 @@ func (c *Ctx) Finish() int {
 		keys = append(keys, k)
 	}
 	sort.Strings(keys)
-	os.MkdirAll(filepath.Join(Root, "replays"), 0755)
+	os.MkdirAll(ReplayDir(), 0755)
 	nUnknown, nKnown := 0, 0
 	seenFinding := map[*Finding]int{}
 	var unknownLines []string
@@ -219,7 +244,7 @@ func (c *Ctx) Finish() int {
 			if len(name) > 120 {
 				name = fmt.Sprintf("%s-%03d-%s.json", c.ID, nUnknown, safeRe.ReplaceAllString(k, "_")[:80])
 			}
-			p := filepath.Join(Root, "replays", name)
+			p := filepath.Join(ReplayDir(), name)
 			b, _ := json.MarshalIndent(map[string]any{"property": c.ID, "key": v.Key, "what": v.What, "count": v.Count, "replay": v.Replay}, "", " ")
 			os.WriteFile(p, b, 0644)
 			unknownLines = append(unknownLines, fmt.Sprintf("VIOLATION property=%s replay=%s", c.ID, p))
@@ -287,9 +312,9 @@ func (c *Ctx) Finish() int {
 		ev["assumptions"] = []string{}
 	}
 	b, _ := json.MarshalIndent(ev, "", " ")
-	os.MkdirAll(filepath.Join(Root, "evidence"), 0755)
+	os.MkdirAll(EvidenceDir(), 0755)
 	if c.Only == "" {
-		if err := os.WriteFile(filepath.Join(Root, "evidence", c.ID+".json"), append(b, '\n'), 0644); err != nil {
+		if err := os.WriteFile(filepath.Join(EvidenceDir(), c.ID+".json"), append(b, '\n'), 0644); err != nil {
 			fmt.Printf("BROKEN: property=%s cannot write evidence: %v\n", c.ID, err)
 			return 2
 		}
